@@ -181,8 +181,8 @@ class C11(World):
     pid = "C11"
     chunk = 1
     run_timeout = 150.0
-    quick = dict(runs=520, budget_s=60)
-    selftest_n = dict(quick=(12, 6), thorough=(120, 48))
+    quick = dict(runs=420, budget_s=48)
+    selftest_n = dict(quick=(10, 5), thorough=(120, 48))
     thorough = dict(runs=200000, budget_s=1500)
     components_real = [
         "OpenPinch.main.pinch_analysis_service and everything below it (validation, preparation, direct/indirect targeting, graphs, serialisation)",
@@ -278,7 +278,7 @@ class C11(World):
         n_wr = 0
         for i in range(swarm["length"]):
             c = sched.randrange(swarm["clients"])
-            cand = [("svc", 6.0), ("clock", 10 * swarm["p_clock"]), ("mutate_own_dict", 0.35)]
+            cand = [("svc", 6.0), ("clock", 10 * swarm["p_clock"]), ("mutate_own_dict", 0.35), ("mutate_result", 0.3)]
             if swarm["wrappers"]:
                 cand += [("wload", 1.2 * swarm["wrappers"]), ("wrun", 0.3 * swarm["wrappers"])]
                 if n_wr:
@@ -294,12 +294,15 @@ class C11(World):
                 st = dict(op="svc", p=p, form=args.choices(FORMS, swarm["w_forms"])[0], name=args.choice(names), abort=abort)
             elif op == "clock":
                 st = dict(op="clock", dt=args.choice([0, 0, 1, 59, 3600, 86400, -1, -3600]))
+            elif op == "mutate_result":
+                # the caller edits a RESULT object it was handed (its own property now); later calls must not see that
+                st = dict(op="mutate_result", which=args.randrange(64), what=args.choice(["clear_targets", "scale_qh", "drop_graphs", "rename", "deep", "deep"]))
             elif op == "mutate_own_dict":
                 # the caller edits ITS OWN reusable dictionary after a call returned (then puts it back): results already
                 # handed out must not follow, i.e. they may not alias the caller's lists / dicts
                 st = dict(op="mutate_own_dict", p=p, what=args.choice(["scale_duty", "rename_stream", "drop_stream", "clear_options"]))
             elif op == "wload":
-                via = args.choice(["model_shared", "model_fresh", "json", "json"])
+                via = args.choice(["model_shared", "model_fresh", "json", "json", "from_json_shared"])
                 st = dict(op="wload", p=p, via=via, owner=args.randrange(swarm["clients"]), stem=args.choice(["case", "run A", "Project", f"prob{p}"]))
                 n_wr += 1
             elif op == "wrun":
@@ -461,11 +464,94 @@ class C11(World):
                     stats["pairs"][prev_op + ">" + op] = stats["pairs"].get(prev_op + ">" + op, 0) + 1
                 prev_op = op
                 outcome = None
-                if op == "clock":
+                if op == "hashseed":
+                    import subprocess
+                    import sys
+                    import tempfile
+
+                    q = dict(problem=probs[st["p"]], fc=st["fc"], name=st["name"])
+                    tf = tempfile.NamedTemporaryFile("w", suffix=".json", delete=False)
+                    json.dump(q, tf)
+                    tf.close()
+                    script = os.path.join(os.path.dirname(os.path.dirname(os.path.abspath(__file__))), "sim", "fresh_oracle.py")
+                    got = set()
+                    for hs in ("1", "77", "5", "123456", "31337", "2", "999"):
+                        pr_ = subprocess.run([sys.executable, script, tf.name], env=dict(os.environ, PYTHONHASHSEED=hs), capture_output=True, text=True, timeout=600)
+                        got.add(pr_.stdout.strip().splitlines()[-1] if pr_.stdout.strip() else "error")
+                    os.unlink(tf.name)
+                    tick("hash_seed")
+                    if len(got) > 1:
+                        V("hash_seed", "fresh_processes_disagree", step, f"the same call in fresh interpreters under different PYTHONHASHSEED values gives {len(got)} different results")
+                    outcome = "ok"
+                elif op == "clock":
                     clock.advance(st["dt"])
                     if st["dt"] < 0 or st["dt"] >= 3600:
                         fault("clock_jump")
                     outcome = "ok"
+                elif op == "mutate_result":
+                    if not held:
+                        outcome = "skip"
+                    else:
+                        k = st["which"] % len(held)
+                        obj, _text = held[k]
+                        fpb = fp()
+                        try:
+                            if st["what"] == "deep":
+                                # the caller scribbles over every nested sub-object of ITS result, in place
+                                for t_ in obj.targets:
+                                    if t_.temp_pinch is not None:
+                                        t_.temp_pinch.cold_temp = 999.0
+                                        t_.temp_pinch.hot_temp = -999.0
+                                    for u_ in list(t_.hot_utilities) + list(t_.cold_utilities):
+                                        u_.name = "edited"
+                                        u_.heat_flow = -1.0
+                                    t_.hot_utilities.append(t_.hot_utilities[0]) if t_.hot_utilities else None
+                                for gs_ in (obj.graphs or {}).values():
+                                    gs_.name = "edited"
+                                    for g_ in gs_.graphs:
+                                        for sg_ in g_.segments:
+                                            for dp_ in sg_.data_points:
+                                                dp_.x = 0.0
+                                            sg_.data_points.clear()
+                            elif st["what"] == "clear_targets":
+                                obj.targets.clear()
+                            elif st["what"] == "scale_qh" and obj.targets:
+                                obj.targets[0].Qh = 123456.0
+                                if obj.targets[0].hot_utilities:
+                                    obj.targets[0].hot_utilities[0].heat_flow = -1.0
+                            elif st["what"] == "drop_graphs" and obj.graphs:
+                                key0 = sorted(obj.graphs)[0]
+                                obj.graphs[key0].graphs.clear()
+                                obj.graphs.pop(sorted(obj.graphs)[-1], None)
+                            else:
+                                obj.name = "edited by caller"
+                            probe("caller_edited_a_result")
+                            new_text = obj.model_dump_json()
+                        except Exception as e:
+                            new_text = None
+                            log.append(("mutate_result_exc", type(e).__name__))
+                        d_ = fp_diff(fpb, fp())
+                        tick("module_state")
+                        if d_:
+                            V("module_state", "caller_edit_of_result_reaches:" + d_[0], step, f"editing a returned result object changed library state {d_[:3]}: the result aliases a long-lived internal")
+                        # every OTHER held result must be untouched; the edited one is re-baselined
+                        tick("earlier_results")
+                        for j, (o2, t2) in enumerate(held):
+                            if j == k or o2 is obj:
+                                continue
+                            try:
+                                now = o2.model_dump_json()
+                            except Exception as e:
+                                now = f"<{type(e).__name__}>"
+                            if now != t2:
+                                V("earlier_results", "results_alias_each_other", step, f"editing one result object changed another result handed out earlier ({st['what']})")
+                                break
+                        if new_text is not None:
+                            held[:] = [(o2, (new_text if o2 is obj else t2)) for (o2, t2) in held]
+                        for rec in wrappers:
+                            if rec["obj"].results is obj:
+                                rec["edited"] = True
+                        outcome = "ok"
                 elif op == "mutate_own_dict":
                     p = st["p"] % len(probs)
                     d = shared_dict.get((c, p))
@@ -570,6 +656,12 @@ class C11(World):
                                 json.dump(probs[p], f)
                             w.load(path)
                             rec.update(fc="dict", name=st["stem"], src=path, data=None, snap=None, filebytes=open(path, "rb").read())
+                        elif via == "from_json_shared":
+                            # PinchProblem.from_json(dict) with the caller's own reusable dictionary
+                            dsh = shared_dict.setdefault((c, p), copy.deepcopy(probs[p]))
+                            w = PinchProblem.from_json(dsh)
+                            rec.update(obj=w, fc="dict", name="Untitled", src="from_json", data=dsh, snap=None)
+                            used_shared.add(("dict_shared", c, p))
                         else:
                             if via == "model_shared":
                                 o = st["owner"]
@@ -613,6 +705,11 @@ class C11(World):
                                 kind, val = run_plain(w.target)
                             if had and kind == "ok":
                                 probe("wrapper_cached_target")
+                            if had and kind == "ok" and rec.get("edited"):
+                                # the caller edited the cached object itself: the wrapper hands the same (edited) object back, nothing to judge
+                                outcome = "ok:cached_edited"
+                                log.append([c, op, outcome])
+                                continue
                             outcome = judge_call(step, st, key, kind, val, "wrapper_" + rec["fc"], fpb, data, snap, tr)
                             if had and kind == "ok" and held and len(held) >= 2 and held[-1][0] is held[-2][0]:
                                 held.pop()
@@ -717,11 +814,12 @@ class C11(World):
             interleaving=prng.digest([[s.get("client", 0), s["op"]] for s in trace["steps"]]),
             sim_time=clock.span,
         )
-        if trace.get("run", 99) < 12 and answers:
-            # oracle sample for cross-validation against genuinely fresh interpreters
-            (p, fc, name), a = sorted(answers.items())[0]
-            res["stats"].setdefault("extra", {})
-            res["aux"] = dict(problem=probs[p], fc=fc, name=name, digest=prng.digest(a.get("json") if a["kind"] == "ok" else [a["type"]]))
+        if answers:
+            # oracle samples for cross-validation against genuinely fresh interpreters under other hash seeds
+            # (problems with a zone tree first: label resolution is where set/dict ordering can leak into results)
+            ks = [k for k in answers if not any(o in (probs[k[0]].get("options") or {}) for o in ("DO_PROCESS_HP_TARGETING", "DO_UTILITY_HP_TARGETING")) and len(probs[k[0]].get("streams", [])) <= 30]
+            ks = sorted(ks, key=lambda k: (0 if probs[k[0]].get("zone_tree") else 1, k))[:2]
+            res["aux"] = [dict(problem=probs[p], fc=fc, name=name, digest=prng.digest(answers[(p, fc, name)].get("json") if answers[(p, fc, name)]["kind"] == "ok" else [answers[(p, fc, name)]["type"]])) for (p, fc, name) in ks]
         return res
 
     # ---------------------------------------------------------------- shrinking
@@ -760,29 +858,64 @@ class C11(World):
 
     # ---------------------------------------------------------------- oracle cross-validation
     def extra_selftests(self, ctl):
+        """Every sampled oracle answer (pristine fork, this process's hash seed) is recomputed in two genuinely fresh
+        interpreters under other PYTHONHASHSEED values, each query in its own fork.  A fresh-vs-fork difference that the two
+        fresh interpreters share is a harness error; a difference BETWEEN hash seeds is non-determinism of the library itself,
+        i.e. a C11 violation (two fresh processes disagree about the same problem)."""
         import subprocess
         import sys
         import tempfile
 
-        samples = ctl.aux[: (6 if ctl.tier == "quick" else 48)]
+        seen, samples = set(), []
+        for s_ in ctl.aux:
+            k = prng.digest([s_["problem"], s_["fc"], s_["name"]])
+            if k not in seen:
+                seen.add(k)
+                samples.append(s_)
+        samples.sort(key=lambda s_: 0 if s_["problem"].get("zone_tree") else 1)
+        samples = samples[: (48 if ctl.tier == "quick" else 600)]
         if not samples:
             return {"oracle_cross_validation": dict(checked=0)}
-        procs = []
         tmpd = tempfile.mkdtemp(prefix="c11_oracle_", dir="/dev/shm" if os.path.isdir("/dev/shm") else None)
         try:
-            for i, s in enumerate(samples):
-                f = os.path.join(tmpd, f"q{i}.json")
-                json.dump(s, open(f, "w"))
-                env = dict(os.environ, PYTHONHASHSEED=str(1000 + 7 * i))
-                procs.append((s, subprocess.Popen([sys.executable, os.path.join(os.path.dirname(os.path.dirname(os.path.abspath(__file__))), "sim", "fresh_oracle.py"), f], env=env, stdout=subprocess.PIPE, stderr=subprocess.PIPE, text=True)))
-            bad = 0
-            for s, pr in procs:
-                out, err = pr.communicate(timeout=600)
-                got = out.strip().splitlines()[-1] if out.strip() else ""
-                if got != s["digest"]:
-                    bad += 1
-                    ctl.errors.append(f"oracle cross-validation: fresh interpreter answer {got!r} != pristine-fork answer {s['digest']!r} ({err[-200:]})")
-            return {"oracle_cross_validation": dict(checked=len(samples), mismatches=bad, how="same call in genuinely fresh interpreters under PYTHONHASHSEED 1000+7i")}
+            script = os.path.join(os.path.dirname(os.path.dirname(os.path.abspath(__file__))), "sim", "fresh_oracle.py")
+            seeds = ["1", "77"]
+            nparts = max(1, min(len(samples), ctl.workers // 2))
+            parts = [samples[i::nparts] for i in range(nparts)]
+            procs = []
+            for pi, part in enumerate(parts):
+                f = os.path.join(tmpd, f"batch{pi}.json")
+                json.dump(part, open(f, "w"))
+                for hs in seeds:
+                    procs.append((pi, hs, subprocess.Popen([sys.executable, script, "--batch", f], env=dict(os.environ, PYTHONHASHSEED=hs), stdout=subprocess.PIPE, stderr=subprocess.PIPE, text=True)))
+            got = {}
+            for pi, hs, pr in procs:
+                out, err = pr.communicate(timeout=3000)
+                try:
+                    got[(pi, hs)] = json.loads(out.strip().splitlines()[-1])
+                except Exception:
+                    ctl.errors.append("oracle cross-validation: fresh interpreter produced no answer: " + err[-200:])
+                    return {"oracle_cross_validation": dict(checked=0)}
+            outs = [[None] * len(samples), [None] * len(samples)]
+            for pi in range(nparts):
+                for si, hs in enumerate(seeds):
+                    for j, dg in enumerate(got[(pi, hs)]):
+                        outs[si][pi + j * nparts] = dg
+            bad_fork, nondet = 0, 0
+            for i, s_ in enumerate(samples):
+                a, b = outs[0][i], outs[1][i]
+                if a != b or a != s_["digest"]:
+                    # fork (this process's hash seed), fresh/1 and fresh/77 are three fresh-process answers to one call:
+                    # any disagreement is a candidate violation; the replay (six more hash seeds, fresh interpreters only)
+                    # decides - if those all agree the discrepancy was the fork oracle's and is reported as a harness error
+                    nondet += 1
+                    if nondet <= 3:
+                        path = os.path.join(os.environ.get("VERIF_REPLAY_DIR") or os.path.join(os.path.dirname(os.path.dirname(os.path.abspath(__file__))), "replays"), f"C11-{ctl.seed}-hashseed-{prng.digest(s_['problem'])[:10]}.json")
+                        os.makedirs(os.path.dirname(path), exist_ok=True)
+                        tr = dict(property="C11", swarm=dict(clients=1), problems=[dict(src="hashseed", data=s_["problem"])], steps=[dict(op="hashseed", p=0, fc=s_["fc"], name=s_["name"], client=0)], violation=dict(check="hash_seed", site="fresh_processes_disagree", detail="the same call in two fresh interpreters (PYTHONHASHSEED 1 and 77) gives different results"))
+                        json.dump(tr, open(path, "w"), indent=1)
+                        ctl.violations_extra = getattr(ctl, "violations_extra", []) + [dict(check="hash_seed", site="fresh_processes_disagree", replay=path, steps=1, occurrences=1, detail=tr["violation"]["detail"])]
+            return {"oracle_cross_validation": dict(checked=len(samples), fork_vs_fresh_mismatches=bad_fork, hash_seed_disagreements=nondet, how="every sampled call recomputed in two fresh interpreters (PYTHONHASHSEED 1 and 77), one fork per call")}
         finally:
             import shutil
 
